@@ -517,7 +517,7 @@ void LogsumHmmLikelihood::computeD2Forward_() const
   vector<size_t>::const_iterator bpIt = breakPoints_.begin();
   if (bpIt != breakPoints_.end())
     nextBrkPt = *bpIt;
-  partialDLogLikelihoods_.clear();
+  partialD2LogLikelihoods_.clear();
 
   for (size_t i = 1; i < nbSites_; i++)
   {
